@@ -5,7 +5,7 @@
    how long the wait really took).  All theorems are for every callback / socket script, every selector script and
    every fuel (a truncated run is a prefix of the real one). *)
 From Coq Require Import ZArith List Bool Lia.
-From EN Require Import Lib.Bytes IO.Retry IO.RetryEnv IO.SendAll IO.SendMsg IO.Budget Proofs.C11_retry Proofs.C11_budget Proofs.C11_env.
+From EN Require Import Lib.Bytes IO.Retry IO.RetryEnv IO.SendAll IO.SendMsg IO.Budget Proofs.C11_retry Proofs.C11_budget Proofs.C11_env IO.ClientLocks Proofs.C11_locks.
 Import ListNotations.
 Open Scope Z_scope.
 
@@ -234,6 +234,58 @@ Theorem retry_w_is_retry_loop :
 Proof. exact retry_w_list_instance. Qed.
 Print Assumptions retry_w_is_retry_loop.
 
+(* ---- lock discipline of TCPNetworkClient / UDPNetworkClient (IO/ClientLocks.v): send lock + receive lock, the
+   calls of several threads as a labelled transition system (Start / Grant / GiveUp / Finish), any history. *)
+
+(* every lock acquired is released when the call ends: a lock is owned only by a call that is inside its body, *)
+Theorem lock_owner_is_in_body :
+  forall (s : cst) (l : lockid) (k : nat),
+    reachable s -> owner s l = Some k ->
+    exists c, lookup k (cs s) = Some c /\ c_ph c = PHold /\ lock_of (c_m c) = l.
+Proof. exact owner_is_in_body. Qed.
+Print Assumptions lock_owner_is_in_body.
+
+(* ... hence once every call has returned or raised (whatever the interleaving, give-ups and failures), both locks are free. *)
+Theorem locks_free_at_quiescence :
+  forall s : cst,
+    reachable s -> (forall c, In c (cs s) -> exists code, c_ph c = PDone code) ->
+    o_send s = None /\ o_recv s = None.
+Proof. exact quiescent_locks_free. Qed.
+Print Assumptions locks_free_at_quiescence.
+
+(* a receive never waits on the send lock: with the receive lock free it is inside its body at once, whoever owns
+   the send lock (which it leaves untouched); and symmetrically for a send. *)
+Theorem recv_never_waits_on_send_lock :
+  forall (s : cst) (k : nat) (T : tmo),
+    lookup k (cs s) = None -> o_recv s = None -> tmo_neg T = false ->
+    exists s', step s (Start k MRecv T) = Some s'
+               /\ lookup k (cs s') = Some (mk_call k MRecv PHold) /\ o_send s' = o_send s.
+Proof. exact recv_ignores_send_lock. Qed.
+Print Assumptions recv_never_waits_on_send_lock.
+
+Theorem send_never_waits_on_recv_lock :
+  forall (s : cst) (k : nat) (T : tmo),
+    lookup k (cs s) = None -> o_send s = None -> tmo_neg T = false ->
+    exists s', step s (Start k MSend T) = Some s'
+               /\ lookup k (cs s') = Some (mk_call k MSend PHold) /\ o_recv s' = o_recv s.
+Proof. exact send_ignores_recv_lock. Qed.
+Print Assumptions send_never_waits_on_recv_lock.
+
+(* a waiting call can be granted as soon as its OWN lock is free; a zero timeout never parks a call on a lock. *)
+Theorem grant_needs_own_lock_only :
+  forall (s : cst) (k : nat) (c : call) (f : bool),
+    lookup k (cs s) = Some c -> c_ph c = PWait f -> owner s (lock_of (c_m c)) = None ->
+    exists s', step s (Grant k) = Some s'.
+Proof. exact grant_depends_on_own_lock_only. Qed.
+Print Assumptions grant_needs_own_lock_only.
+
+Theorem zero_timeout_never_waits_on_a_lock :
+  forall (s : cst) (k : nat) (m : meth) (s' : cst) (c : call),
+    timed m = true -> step s (Start k m (Some 0)) = Some s' -> lookup k (cs s') = Some c ->
+    forall f, c_ph c <> PWait f.
+Proof. exact zero_timeout_never_waits_on_lock. Qed.
+Print Assumptions zero_timeout_never_waits_on_a_lock.
+
 (* ---- non-vacuity: a drip-fed 3-byte packet, retry interval 2, T = 8: four waits, all inside the budget *)
 Example drip_feed :
   let s := [RBlock false 0; RData [1%N] 0; RBlock false 0; RData [2%N] 0; RBlock false 0; RBlock false 0; RData [3%N] 0] in
@@ -256,4 +308,11 @@ Example env_run_ri2 : let r := retry_env (mk_env 5 [1; 3]) 9 (Some 2) (Some 8) 0
 Proof. vm_compute. repeat split. Qed.
 Example env_run_riinf : let r := retry_env (mk_env 5 [1; 3]) 9 None (Some 8) 0 in
   rr_out r = ROk tt (Some 3) /\ rr_dt r = 5.
+Proof. vm_compute. repeat split. Qed.
+
+Example lock_history :
+  let '(sf, en) := run_labels cst0 [Start 0 MSend None; Start 1 MSend (Some 5); Start 2 MRecv (Some 0); Finish 2 true;
+                                    Finish 0 true; Grant 1; Finish 1 false; Start 3 MSend (Some 0); Finish 3 true] in
+  forallb (fun b => b) en = true /\ o_send sf = None /\ o_recv sf = None
+  /\ map c_ph (cs sf) = [PDone 0; PDone E_CONN; PDone 0; PDone 0].
 Proof. vm_compute. repeat split. Qed.
